@@ -243,26 +243,42 @@ class World(SessionWorld):
         self.dispatch_mutated = mut
 
     def op_subscribe_object(self):
+        """subscribe(obj[, options]): one SUBSCRIBE per decorated method.  The class is defined once per run and may be
+        subscribed several times (several instances), the first time without options, later with options that ask for
+        event details: every call is judged by the options it was given."""
         from autobahn import wamp
+        from autobahn.wamp import types
         world = self
+        if getattr(self, "ObjClass", None) is None:
+            class Obj:
+                def __init__(self, hs):
+                    self.hs = hs
+
+                @wamp.subscribe("com.ex.t1")
+                def on_t1(self, *a, **k):
+                    world.invocations.append((world.event_no, self.hs[0].token))
+                    self.hs[0].calls.append((world.event_no, tuple(jsonish(list(a))), {x: y for x, y in k.items() if x != "details"},
+                                             k.get('details')))
+
+                @wamp.subscribe("com.ex.obj")
+                def on_obj(self, *a, **k):
+                    world.invocations.append((world.event_no, self.hs[1].token))
+                    self.hs[1].calls.append((world.event_no, tuple(jsonish(list(a))), {x: y for x, y in k.items() if x != "details"},
+                                             k.get('details')))
+            self.ObjClass = Obj
+            self.obj_subscribes = 0
+        with_details = self.obj_subscribes > 0 and self.run.ch.flag("object-subscribed-again-with-details", 0.6)
+        self.obj_subscribes += 1
         toks = [self.new_tok(), self.new_tok()]
-        hs = [H(toks[0], "com.ex.t1", "ok", False, False), H(toks[1], "com.ex.obj", "ok", False, False)]
-
-        class Obj:
-            @wamp.subscribe("com.ex.t1")
-            def on_t1(self, *a, **k):
-                world.invocations.append((world.event_no, hs[0].token))
-                hs[0].calls.append((world.event_no, tuple(jsonish(list(a))), dict(k), k.get('details')))
-
-            @wamp.subscribe("com.ex.obj")
-            def on_obj(self, *a, **k):
-                world.invocations.append((world.event_no, hs[1].token))
-                hs[1].calls.append((world.event_no, tuple(jsonish(list(a))), dict(k), k.get('details')))
-
-        obj = Obj()
+        hs = [H(toks[0], "com.ex.t1", "ok", with_details, False), H(toks[1], "com.ex.obj", "ok", with_details, False)]
+        obj = self.ObjClass(hs)
         self.objs.append(obj)
         n0 = len(self.t.sent)
-        fut = self.call(self.session.subscribe, obj)
+        if with_details:
+            self.run.probe("decorated-object-subscribed-again-with-options")
+            fut = self.call(self.session.subscribe, obj, None, types.SubscribeOptions(details_arg="details"))
+        else:
+            fut = self.call(self.session.subscribe, obj)
         self.settle()
         new = self.t.sent[n0:]
         if len(new) != 2:
@@ -273,6 +289,7 @@ class World(SessionWorld):
         for h in hs:
             h.gather = w
             h.from_object = True
+            h.obj = obj
             self.handlers.append(h)
             self.pending_subs[by_topic[h.topic].request] = h
         self.run.probe("decorated-object")
@@ -365,7 +382,7 @@ class World(SessionWorld):
                     # the gather future completes when all members are subscribed: look the
                     # Subscription up by handler identity instead
                     for s in self.session._subscriptions.get(sid, []):
-                        if s.handler.obj in self.objs and s.topic == h.topic:
+                        if s.handler.obj is getattr(h, "obj", None) and s.topic == h.topic:
                             h.sub = s
             else:
                 st = h.w.state()
